@@ -431,14 +431,55 @@ _MDICT_METHODS = {
 # getattr / getitem / setitem / delitem
 # ---------------------------------------------------------------------------------------------
 
+class SplitParts:
+    """s.split(sep) for a symbolic s and a constant non-empty sep.  Only element 0 is modelled, exactly: the text before the
+    first occurrence of sep, or all of s when sep does not occur.  Never empty (so it is truthy and [0] never raises)."""
+
+    def __init__(self, s, sep):
+        self.s, self.sep = s, sep
+
+    def head(self):
+        t, c = S.term(self.s), S.term(self.sep)
+        return Sym(S.STR, z3.If(z3.Contains(t, c), z3.SubString(t, 0, z3.IndexOf(t, c, 0)), t))
+
+
+class WordList:
+    """s.split() (no separator) for a symbolic s: an ASSUMED model of the built-in -- the number of blank-separated words is
+    py_nwords(s) >= 0 and word i (0 <= i < py_nwords(s)) is py_word(s, i); both uninterpreted, refined on ground
+    instances against CPython.  Indexing outside the range raises IndexError as CPython does."""
+
+    def __init__(self, s):
+        self.s = s
+
+    def length(self):
+        return Sym(S.INT, S.py_nwords(S.term(self.s)))
+
+    def word(self, I, i):
+        if is_sym(i) or not isinstance(i, int) or isinstance(i, bool):
+            raise OutOfReach("word list indexed by a symbolic / non-integer index")
+        n = self.length()
+        ok = S.cmp("<", i, n) if i >= 0 else S.cmp(">=", n, -i)
+        if not I.ctx.branch(ok):
+            raise PyRaise(IndexError, ("list index out of range",), "[]")
+        if i < 0:
+            raise OutOfReach("word list indexed from the end")
+        return Sym(S.STR, S.py_word(S.term(self.s), z3.IntVal(i)))
+
+
 def _sym_str_split(I, s, sep=None, maxsplit=-1):
-    raise OutOfReach("str.split on a symbolic string")
+    if maxsplit == -1 and sep is None:
+        return WordList(s)
+    if maxsplit == -1 and isinstance(sep, str) and sep != "":
+        return SplitParts(s, sep)
+    raise OutOfReach("str.split with a symbolic separator or a maxsplit")
 
 
 def _sym_str_strip_arg(I, s, chars=None):
     if chars is None:
         return S.strip(s)
-    raise OutOfReach("str.strip(chars) on a symbolic string")
+    if isinstance(chars, str):
+        return S.strip_chars(s, chars)
+    raise OutOfReach("str.strip(chars) with symbolic chars")
 
 
 def _sym_str_format(I, s, *a, **k):
@@ -612,6 +653,12 @@ def getitem(I, obj, key):
         return _absseq_getitem(I, obj, key)
     if isinstance(obj, MDict):
         return mdict_getitem(I, obj, key)
+    if isinstance(obj, WordList):
+        return obj.word(I, key)
+    if isinstance(obj, SplitParts):
+        if key == 0 and not is_sym(key) and not isinstance(key, slice):
+            return obj.head()
+        raise OutOfReach("only element 0 of str.split(sep) is modelled")
     if isinstance(obj, TokenM):
         obj = obj.text
     if isinstance(obj, Sym):
@@ -691,6 +738,10 @@ def m_len(I, x):
     from .absx import AbsSeqList
     if isinstance(x, AbsSeqList):
         return x.length()
+    if isinstance(x, WordList):
+        return x.length()
+    if isinstance(x, SplitParts):
+        raise OutOfReach("len() of str.split(sep)")
     if isinstance(x, AbsColl):
         if "length" in x.info:
             return x.info["length"]
